@@ -22,6 +22,7 @@ import (
 	"container/list"
 	"context"
 	"fmt"
+	"math"
 	"time"
 
 	"go.uber.org/multierr"
@@ -147,13 +148,19 @@ func (ud *unresolvedDistributed) Analyze(s logical.Schema) (logical.Plan, error)
 	if limit == 0 {
 		limit = defaultLimit
 	}
+	// Every node must return its first offset+limit rows. The sum saturates: a wrapped
+	// uint32 would ask the nodes for a tiny window (e.g. limit=MaxUint32 with an offset).
+	nodeLimit := limit + ud.originalQuery.Offset
+	if nodeLimit < limit {
+		nodeLimit = math.MaxUint32
+	}
 	temp := &measurev1.QueryRequest{
 		TagProjection:   ud.originalQuery.TagProjection,
 		FieldProjection: ud.originalQuery.FieldProjection,
 		Name:            ud.originalQuery.Name,
 		Groups:          ud.originalQuery.Groups,
 		Criteria:        ud.originalQuery.Criteria,
-		Limit:           limit + ud.originalQuery.Offset,
+		Limit:           nodeLimit,
 		OrderBy:         ud.originalQuery.OrderBy,
 	}
 	if ud.pushDownAgg {
